@@ -109,8 +109,25 @@ static void cap(obsx& o, bool r) { o.has = true; o.val = text(r); }
 // what the same operation gives on the underlying values
 template <class R> static void capu(obsx& o, const R& r) { o.u = text(r); o.un = has_nan(r); }
 
-struct opd { bool l, h; long long x; };
-static opd read_opd(const vj::value& v) { return opd{v.at("l").b, v.at("h").b, v.at("x").i}; }
+// c: the value category under which the call names the operand: 0 = const lvalue, 1 = non-const lvalue, 2 = rvalue
+struct opd { bool l, h; long long x; int c; };
+static int read_cat(const vj::value& v)
+{
+    if (!v.has("c")) return 0;
+    const std::string& c = v.str("c");
+    if (c == "cl") return 0;
+    if (c == "lv") return 1;
+    if (c == "rv") return 2;
+    script_error("bad value category", c);
+}
+static opd read_opd(const vj::value& v) { return opd{v.at("l").b, v.at("h").b, v.at("x").i, read_cat(v)}; }
+// hand the operand object a to f under category c (the object is a local of the caller that dies after the call)
+template <class X, class F> static obsx hand(int c, X& a, F&& f)
+{
+    if (c == 1) return f(a);
+    if (c == 2) return f(std::move(a));
+    return f(static_cast<const X&>(a));
+}
 
 // the underlying value of an operand
 template <class T> static const T& under(const T& t) { return t; }
@@ -129,38 +146,46 @@ template <class T> struct plain_ok : std::true_type {};
 template <> struct plain_ok<cpx> : std::false_type {};
 template <> struct plain_ok<oint> : std::false_type {};    // (a bare xoptional<int> beside xoptional<xoptional<int>> is a lifted operand of another value type)
 template <class T, class F> static obsx with_plain(std::true_type, const opd& p, F&& f) { T a = tab<T>::get(p.x); return f(a); }
+template <class T, class F> static obsx withc_plain(std::true_type, const opd& p, F&& f) { T a = tab<T>::get(p.x); return hand(p.c, a, f); }
+template <class T, class F> static obsx withc_plain(std::false_type, const opd&, F&&) { script_error("this value type has no mixed lifted / plain forms"); }
 template <class T, class F> static obsx with_plain(std::false_type, const opd&, F&&) { script_error("this value type has no mixed lifted / plain forms"); }
 template <class L, class T, class F> static obsx with(const opd& p, F&& f)
 {
     if (p.l) { L a(tab<T>::get(p.x), bool(p.h)); return f(a); }
     return with_plain<T>(plain_ok<T>{}, p, f);
 }
-template <class T, class FN, class... A> static obsx apply(std::true_type, FN& fn, const A&... a)
+// the same, the operand handed over under its category (binary calls, comparisons, the right operand of a compound assignment)
+template <class L, class T, class F> static obsx withc(const opd& p, F&& f)
+{
+    if (p.l) { L a(tab<T>::get(p.x), bool(p.h)); return hand(p.c, a, f); }
+    return withc_plain<T>(plain_ok<T>{}, p, f);
+}
+template <class T, class FN, class... A> static obsx apply(std::true_type, FN& fn, A&&... a)
 {
     obsx o;
     capu(o, fn(under(a)...));
-    cap(o, fn(a...));
+    cap(o, fn(std::forward<A>(a)...));
     return o;
 }
-template <class T, class FN, class... A> static obsx apply(std::false_type, FN&, const A&...) { script_error("no lifted operand"); }
+template <class T, class FN, class... A> static obsx apply(std::false_type, FN&, A&&...) { script_error("no lifted operand"); }
 template <class L, class T, class FN> static obsx call1(const std::vector<opd>& ps, FN fn)
 {
-    return with<L, T>(ps[0], [&](auto& a) { return apply<T>(lifted_over<T, std::decay_t<decltype(a)>>{}, fn, a); });
+    return with<L, T>(ps[0], [&](auto&& a) { return apply<T>(lifted_over<T, std::decay_t<decltype(a)>>{}, fn, a); });
 }
 template <class L, class T, class FN> static obsx call2(const std::vector<opd>& ps, FN fn)
 {
-    return with<L, T>(ps[0], [&](auto& a) {
-        return with<L, T>(ps[1], [&](auto& b) {
+    return withc<L, T>(ps[0], [&](auto&& a) {
+        return withc<L, T>(ps[1], [&](auto&& b) {
             using ok = std::integral_constant<bool, lifted_over<T, std::decay_t<decltype(a)>>::value || lifted_over<T, std::decay_t<decltype(b)>>::value>;
-            return apply<T>(ok{}, fn, a, b);
+            return apply<T>(ok{}, fn, std::forward<decltype(a)>(a), std::forward<decltype(b)>(b));
         });
     });
 }
 template <class L, class T, class FN> static obsx call3(const std::vector<opd>& ps, FN fn)
 {
-    return with<L, T>(ps[0], [&](auto& a) {
-        return with<L, T>(ps[1], [&](auto& b) {
-            return with<L, T>(ps[2], [&](auto& c) {
+    return with<L, T>(ps[0], [&](auto&& a) {
+        return with<L, T>(ps[1], [&](auto&& b) {
+            return with<L, T>(ps[2], [&](auto&& c) {
                 using ok = std::integral_constant<bool, lifted_over<T, std::decay_t<decltype(a)>>::value || lifted_over<T, std::decay_t<decltype(b)>>::value ||
                                                             lifted_over<T, std::decay_t<decltype(c)>>::value>;
                 return apply<T>(ok{}, fn, a, b, c);
@@ -173,24 +198,27 @@ template <class L, class T, class FN> static obsx compound(const std::vector<opd
 {
     if (!ps[0].l) script_error("compound assignment needs a lifted target");
     L a(tab<T>::get(ps[0].x), bool(ps[0].h));
-    return with<L, T>(ps[1], [&](auto& b) {
+    return withc<L, T>(ps[1], [&](auto&& b) {
         obsx o;
         T raw = tab<T>::get(ps[0].x);
         o.pre = text(raw);
         fn(raw, under(b));
         capu(o, raw);
-        fn(a, b);
+        fn(a, std::forward<decltype(b)>(b));
         cap(o, a);
         return o;
     });
 }
 
 #define FN1(expr) [](const auto& x) { using namespace std; return expr; }
-#define FN2(expr) [](const auto& x, const auto& y) { using namespace std; return expr; }
+// binary calls receive their operands under the category of the case (XF / YF forward them)
+#define FN2(expr) [](auto&& x, auto&& y) { using namespace std; return expr; }
+#define XF std::forward<decltype(x)>(x)
+#define YF std::forward<decltype(y)>(y)
 #define FN3(expr) [](const auto& x, const auto& y, const auto& z) { using namespace std; return expr; }
-// (the right operand of a compound assignment is handed over as the NON-CONST LVALUE it is in `a += b;`:
-//  an overload set that treats const and non-const operands differently must still give the same answer)
-#define ASG(tok) [](auto& x, auto& y) { x tok y; }
+// (the right operand of a compound assignment is handed over under the category of the case: a const lvalue, the
+//  non-const lvalue it is in `a += b;`, or an rvalue as in `a += b * c;`)
+#define ASG(tok) [](auto& x, auto&& y) { x tok std::forward<decltype(y)>(y); }
 
 template <class L> static obsx call_double(const std::string& op, const std::string& f, const std::vector<opd>& ps, const std::string& g)
 {
@@ -207,19 +235,19 @@ template <class L> static obsx call_double(const std::string& op, const std::str
     }
     if ((op == "Call" || op == "Compare") && ps.size() == 2)
     {
-        if (f == "plus") return call2<L, T>(ps, FN2(x + y));
-        if (f == "minus") return call2<L, T>(ps, FN2(x - y));
-        if (f == "mul") return call2<L, T>(ps, FN2(x * y));
-        if (f == "div") return call2<L, T>(ps, FN2(x / y));
-        if (f == "lt") return call2<L, T>(ps, FN2(x < y));
-        if (f == "ge") return call2<L, T>(ps, FN2(x >= y));
-        if (f == "fmax") return call2<L, T>(ps, FN2(fmax(x, y)));
-        if (f == "fmin") return call2<L, T>(ps, FN2(fmin(x, y)));
-        if (f == "pow") return call2<L, T>(ps, FN2(pow(x, y)));
-        if (f == "atan2") return call2<L, T>(ps, FN2(atan2(x, y)));
-        if (f == "lor") return call2<L, T>(ps, FN2(x || y));
-        if (f == "eq") return call2<L, T>(ps, FN2(x == y));
-        if (f == "ne") return call2<L, T>(ps, FN2(x != y));
+        if (f == "plus") return call2<L, T>(ps, FN2(XF + YF));
+        if (f == "minus") return call2<L, T>(ps, FN2(XF - YF));
+        if (f == "mul") return call2<L, T>(ps, FN2(XF * YF));
+        if (f == "div") return call2<L, T>(ps, FN2(XF / YF));
+        if (f == "lt") return call2<L, T>(ps, FN2(XF < YF));
+        if (f == "ge") return call2<L, T>(ps, FN2(XF >= YF));
+        if (f == "fmax") return call2<L, T>(ps, FN2(fmax(XF, YF)));
+        if (f == "fmin") return call2<L, T>(ps, FN2(fmin(XF, YF)));
+        if (f == "pow") return call2<L, T>(ps, FN2(pow(XF, YF)));
+        if (f == "atan2") return call2<L, T>(ps, FN2(atan2(XF, YF)));
+        if (f == "lor") return call2<L, T>(ps, FN2(XF || YF));
+        if (f == "eq") return call2<L, T>(ps, FN2(XF == YF));
+        if (f == "ne") return call2<L, T>(ps, FN2(XF != YF));
     }
     if (op == "Call" && ps.size() == 3 && f == "fma") return call3<L, T>(ps, FN3(fma(x, y, z)));
     if (op == "Compound")
@@ -250,12 +278,12 @@ static obsx call_cpx(const std::string& op, const std::string& f, const std::vec
     }
     if ((op == "Call" || op == "Compare") && ps.size() == 2)
     {
-        if (f == "plus") return call2<L, T>(ps, FN2(x + y));
-        if (f == "minus") return call2<L, T>(ps, FN2(x - y));
-        if (f == "mul") return call2<L, T>(ps, FN2(x * y));
-        if (f == "div") return call2<L, T>(ps, FN2(x / y));
-        if (f == "eq") return call2<L, T>(ps, FN2(x == y));
-        if (f == "ne") return call2<L, T>(ps, FN2(x != y));
+        if (f == "plus") return call2<L, T>(ps, FN2(XF + YF));
+        if (f == "minus") return call2<L, T>(ps, FN2(XF - YF));
+        if (f == "mul") return call2<L, T>(ps, FN2(XF * YF));
+        if (f == "div") return call2<L, T>(ps, FN2(XF / YF));
+        if (f == "eq") return call2<L, T>(ps, FN2(XF == YF));
+        if (f == "ne") return call2<L, T>(ps, FN2(XF != YF));
     }
     if (op == "Compound")
     {
@@ -287,14 +315,14 @@ static obsx call_nest(const std::string& op, const std::string& f, const std::ve
     }
     if ((op == "Call" || op == "Compare") && ps.size() == 2)
     {
-        if (f == "plus") return call2<L, T>(ps, FN2(x + y));
-        if (f == "minus") return call2<L, T>(ps, FN2(x - y));
-        if (f == "mul") return call2<L, T>(ps, FN2(x * y));
-        if (f == "band") return call2<L, T>(ps, FN2(x & y));
-        if (f == "lt") return call2<L, T>(ps, FN2(x < y));
-        if (f == "lor") return call2<L, T>(ps, FN2(x || y));
-        if (f == "eq") return call2<L, T>(ps, FN2(x == y));
-        if (f == "ne") return call2<L, T>(ps, FN2(x != y));
+        if (f == "plus") return call2<L, T>(ps, FN2(XF + YF));
+        if (f == "minus") return call2<L, T>(ps, FN2(XF - YF));
+        if (f == "mul") return call2<L, T>(ps, FN2(XF * YF));
+        if (f == "band") return call2<L, T>(ps, FN2(XF & YF));
+        if (f == "lt") return call2<L, T>(ps, FN2(XF < YF));
+        if (f == "lor") return call2<L, T>(ps, FN2(XF || YF));
+        if (f == "eq") return call2<L, T>(ps, FN2(XF == YF));
+        if (f == "ne") return call2<L, T>(ps, FN2(XF != YF));
     }
     if (op == "Compound")
     {
@@ -309,6 +337,76 @@ static obsx call_nest(const std::string& op, const std::string& f, const std::ve
         if (f == "mul" && g == "mul") return call3<L, T>(ps, FN3(x * (y * z)));
     }
     script_error("unknown call on nested optionals", op + " " + f);
+}
+
+// ---------------------------------------------------------------- flag types other than bool
+// an operand xoptional<int, FT> (intref: xoptional<int&, int&> over the cells v, f of this holder) with flag value f
+template <class FT> struct fopd
+{
+    int v; int f;
+    xtl::xoptional<int, FT> o;
+    fopd(int vv, int ff) : v(vv), f(ff), o(int(vv), FT(ff)) {}
+};
+template <> struct fopd<int&>
+{
+    int v; int f;
+    xtl::xoptional<int&, int&> o;
+    fopd(int vv, int ff) : v(vv), f(ff), o(v, f) {}
+};
+template <class K> static obsx with_flag(const vj::value& p, K k)
+{
+    const std::string& t = p.str("t");
+    int v = tab<int>::get(p.num("x")), f = int(p.num("f"));
+    if (t == "bool") { fopd<bool> h(v, f); return k(h); }
+    if (t == "int") { fopd<int> h(v, f); return k(h); }
+    if (t == "u8") { fopd<unsigned char> h(v, f); return k(h); }
+    if (t == "intref") { fopd<int&> h(v, f); return k(h); }
+    script_error("unknown flag type", t);
+}
+template <class FN, class A, class B> static obsx flag_apply(FN fn, A& a, B& b)
+{
+    obsx o;
+    capu(o, fn(a.v, b.v));
+    cap(o, fn(a.o, b.o));
+    return o;
+}
+template <class FN, class A, class B> static obsx flag_asg(FN fn, A& a, B& b, bool divides = false)
+{
+    obsx o;
+    int raw = a.v;
+    o.pre = text(raw);
+    if (divides && b.v == 0) o.u = "undefined";      // (int / 0 has no underlying result; the lifted call is still made)
+    else { fn(raw, b.v); capu(o, raw); }
+    fn(a.o, b.o);
+    cap(o, a.o);
+    return o;
+}
+static obsx flag_call(const std::string& op, const std::string& f, const vj::value& p, const vj::value& q)
+{
+    return with_flag(p, [&](auto& a) {
+        return with_flag(q, [&](auto& b) {
+            if (op == "CompareF")
+            {
+                if (f == "eq") return flag_apply([](const auto& x, const auto& y) { return x == y; }, a, b);
+                if (f == "ne") return flag_apply([](const auto& x, const auto& y) { return x != y; }, a, b);
+            }
+            if (op == "CallF")
+            {
+                if (f == "plus") return flag_apply([](const auto& x, const auto& y) { return x + y; }, a, b);
+                if (f == "minus") return flag_apply([](const auto& x, const auto& y) { return x - y; }, a, b);
+                if (f == "mul") return flag_apply([](const auto& x, const auto& y) { return x * y; }, a, b);
+                if (f == "lt") return flag_apply([](const auto& x, const auto& y) { return x < y; }, a, b);
+            }
+            if (op == "CompoundF")
+            {
+                if (f == "plus_eq") return flag_asg([](auto& x, const auto& y) { x += y; }, a, b);
+                if (f == "mul_eq") return flag_asg([](auto& x, const auto& y) { x *= y; }, a, b);
+                if (f == "div_eq") return flag_asg([](auto& x, const auto& y) { x /= y; }, a, b, true);
+            }
+            script_error("unknown call on flag-typed optionals", op + " " + f);
+            return obsx();
+        });
+    });
 }
 
 static obsx step(const vj::value& e)
@@ -370,15 +468,7 @@ static obsx step(const vj::value& e)
         }
         return o;
     }
-    if (op == "CompareF")
-    {
-        // == / != of two xoptional<int, int>: the flag type is a free parameter, "a falsy flag means that the value is missing"
-        int x = tab<int>::get(a.num("x")), y = tab<int>::get(a.num("y"));
-        xtl::xoptional<int, int> l(int(x), int(a.num("fx"))), r(int(y), int(a.num("fy")));
-        const bool eq = a.str("f") == "eq";
-        o.has = true; o.val = text(eq ? (l == r) : (l != r)); o.u = text(eq ? (x == y) : (x != y));
-        return o;
-    }
+    if (op == "CompareF" || op == "CallF" || op == "CompoundF") return flag_call(op, a.str("f"), a.at("p"), a.at("q"));
     if (op == "Factory")
     {
         int v = tab<int>::get(a.num("x"));
